@@ -24,14 +24,22 @@ Theorem C16_front_modes_agree : forall e files,
 Proof. exact front_modes. Qed.
 Print Assumptions C16_front_modes_agree.
 
-(* the full statement (for every tree, the two modes agree) is false of the faithful model:
-   an array size of 0 is a panic in Debug and undefined behaviour in Release (F10) *)
-Theorem C16_array_size_refuted :
+(* an array size of 0 (or beyond 65535).  With the pinned upstream parse through ast_unwrap! it
+   is a panic in Debug and undefined behaviour in Release (F10) ... *)
+Theorem C16_array_size_refuted_upstream :
+  count_unwrap false Debug 16 (parse_count "0") = Reject RParse /\
+  count_unwrap false Release 16 (parse_count "0") = UB 16 /\
+  count_unwrap false Release 2 (parse_count "65536") = UB 2.
+Proof. repeat split; vm_compute; reflexivity. Qed.
+Print Assumptions C16_array_size_refuted_upstream.
+
+(* ... with the repaired parse (the tree being checked: regenerated fact) both modes reject *)
+Theorem C16_array_size_current :
   let t := T "idl" "" [T "struct" "" [T "struct_keyword" "struct " []; T "ident" "S" [];
              T "struct_field" "" [T "primitive_type" "uint8" []; T "bounded_array" "[0]" [T "array_size" "0" []]; T "ident" "a" []]]] in
-  pst_to_ast Debug false t = Reject RParse /\ pst_to_ast Release false t = UB 16.
+  pst_to_ast Debug false t = Reject RParse /\ pst_to_ast Release false t = Reject RParse.
 Proof. split; vm_compute; reflexivity. Qed.
-Print Assumptions C16_array_size_refuted.
+Print Assumptions C16_array_size_current.
 
 (* a comment between the tokens of a parameter (F12).  With the pinned positional reads the
    modes disagree (panic in Debug, unwrap_unchecked on None in Release) ... *)
